@@ -153,6 +153,34 @@ def high_water_rule(ctx, prog, R):
             ctx.fail(rec, rec.node, f"the record routine never advances self.{a}", construct=f"self.{a} not advanced")
 
 
+def _float_valued(e, float_arrays) -> bool:
+    """syntactic proof that ``e`` is floating point whatever the dtype of the routine's parameters."""
+    if isinstance(e, ast.Constant):
+        return isinstance(e.value, float)
+    if isinstance(e, ast.Call):
+        n = call_name(e) or ""
+        if n in ("np.sqrt", "np.exp", "np.log", "float", "np.float64", "np.divide", "np.true_divide", "np.mean", "np.std"):
+            return True
+        if n in ("np.square", "np.abs", "np.negative", "np.copy", "np.asarray") and e.args:
+            return _float_valued(e.args[0], float_arrays)
+        if isinstance(e.func, ast.Attribute) and e.func.attr == "astype" and e.args and canon(e.args[0]) in ("float", "np.float64"):
+            return True
+        return False
+    if isinstance(e, ast.BinOp):
+        if isinstance(e.op, ast.Div):
+            return True
+        if isinstance(e.op, ast.Pow):
+            return _float_valued(e.left, float_arrays)
+        return _float_valued(e.left, float_arrays) or _float_valued(e.right, float_arrays)
+    if isinstance(e, ast.UnaryOp):
+        return _float_valued(e.operand, float_arrays)
+    if isinstance(e, ast.Subscript):
+        return self_attr_of(e) in float_arrays and self_attr_of(e) not in ("n_evals",)
+    if isinstance(e, ast.Name):
+        return False
+    return False
+
+
 class RankPolicy(BasePolicy):
     row_select_preserves = False
 
@@ -543,6 +571,19 @@ def check(ctx):
                 ctx.check(is_zero(snew - ref_s), rec, stmts[0], "S merge is the combined SD", "merged SD is not 1/sqrt(tau_old + tau_new)", construct="merge formula S")
         except Untranslatable as e:
             ctx.undecided(f"merge block uses a construct the term translator does not know ({e})")
+        # integer-sensitive operators on caller-supplied numbers: np.reciprocal / floor division truncate for integer
+        # input (an SD passed as a Python int is legal), true division does not
+        arrays_f = {a for a in arrays}
+        for s_ in (block or []):
+            for c in ast.walk(s_):
+                bad = None
+                if isinstance(c, ast.Call) and call_name(c) in ("np.reciprocal", "np.floor_divide") and c.args:
+                    if not _float_valued(c.args[0], arrays_f):
+                        bad = f"{call_name(c)}({canon(c.args[0])})"
+                elif isinstance(c, ast.BinOp) and isinstance(c.op, ast.FloorDiv):
+                    bad = canon(c)
+                if bad:
+                    ctx.fail(rec, s_, f"'{bad[:70]}' truncates when its operand is integer-typed (an SD or value supplied as a Python / numpy integer): the merged value and SD are then not the precision-weighted mean and the combined SD", construct=f"integer-truncating {bad[:50]}")
 
     # ------------------------------------------------------------------ R7
     ctx.rule("R7", "per-point observation count advances by exactly one on every path", floor=3)
